@@ -222,7 +222,7 @@ DoMove(S, x, p, pos, why) ==
        seq  == KidsOf(S1, p)
        at   == PosIndex(S1, p, seq, pos)
        dup  == p # q /\ S.did[x] \in SeqSet(KidDids(S, p))
-   IN IF PosOOB(seq, pos) THEN
+   IN IF PosOOB(seq, pos) \/ pos.t = "other" THEN     \* "other": a `before` that is neither bool, int nor node
            (IF dup THEN Refuse(S, AnyErr \cup {"UniqueConstraintError"}, why \o ":oob_dup")
             ELSE Result(TRUE, AnyErr, why \o ":oob", 0, [SetKids(S1, p, Append(seq, x)) EXCEPT !.par[x] = p]))
       ELSE IF at = 0 \/ (pos.t = "node" /\ pos.v = x)
